@@ -452,6 +452,13 @@ class Ctx:
         return p
 
     def finish(self):
+        # a findings/*_refuted.v file is only a machine-checked WITNESS of a recorded defect: when it stops compiling (the defect was
+        # repaired, or the definitions it names changed) the property is not thereby shown to fail; it is reported as a note.
+        stale = [o for o in self.obligations if not o["ok"] and o["kind"] == "refutation"]
+        for o in stale:
+            o["ok"] = True
+            self.notes.append("STALE-FINDING-WITNESS: %s no longer checks (%s)" % (o["name"], o["detail"][:200]))
+            print("[%s] note: recorded refutation %s no longer checks (not a violation by itself)" % (self.prop, o["name"]), flush=True)
         broken = [o for o in self.obligations if not o["ok"]]
         lines = []
         rc = 0
@@ -505,5 +512,5 @@ class Ctx:
             print(l, flush=True)
         print("[%s] tier=%s seed=%d obligations=%d discharged=%d evaluations=%d distinct=%d known=%s wall=%.1fs -> %s" % (
             self.prop, self.tier, self.seed, n_ob, n_ok, self.evaluations, len(self.distinct),
-            sorted(self.known_hits), time.time() - self.t0, "FAIL" if rc else "ok"), flush=True)
+            (sorted(self.known_hits) if len(self.known_hits) <= 8 else "%d known findings" % len(self.known_hits)), time.time() - self.t0, "FAIL" if rc else "ok"), flush=True)
         return rc
